@@ -10,7 +10,7 @@ class ContractError(Exception):
 
 
 def is_ref_kind(k):
-    return isinstance(k, tuple) and k[0] in ('list', 'arr', 'obj', 'set', 'opaque', 'ddict', 'pdict')
+    return isinstance(k, tuple) and k[0] in ('list', 'arr', 'obj', 'set', 'opaque', 'ddict', 'pdict', 'idict')
 
 
 def parse_kind(s):
@@ -22,6 +22,8 @@ def parse_kind(s):
         return s
     if s == 'set':
         return ('set',)
+    if s == 'idict':
+        return ('idict',)
     if s == 'ddict[int]':
         return ('ddict', 'int')
     if s == 'pdict[int]':
